@@ -14,7 +14,7 @@
 (*                            p % NPARTS = PART                            *)
 (*   QV_SEED                  VERIF_SEED, rotates sampled sub-grids        *)
 (***************************************************************************)
-EXTENDS Prog, TLC, Json, IOUtils, SequencesExt, FiniteSetsExt
+EXTENDS Impl, TLC, Json, IOUtils, SequencesExt, FiniteSetsExt
 
 EnvOr(name, default) == IF name \in DOMAIN IOEnv THEN IOEnv[name] ELSE default
 Tier == EnvOr("QV_TIER", "quick")
@@ -57,6 +57,16 @@ MkCase(fam, name, inputs, doms, code, outs, root, ties) ==
                               grads |-> [i \in DOMAIN bp.grads |-> [node |-> bp.grads[i].node, dims |-> bp.grads[i].dims,
                                                                    data |-> EncSeq(bp.grads[i].data)]],
                               nograd |-> bp.nograd]
+
+(* MkCase plus, where back-propagation passes through an expansion with factor > 1, *)
+(* the gradients under the recorded deviation "broadcast_grad_mean" ("asis")        *)
+MkCaseD(fam, name, inputs, doms, code, outs, root, ties) ==
+  LET c == MkCase(fam, name, inputs, doms, code, outs, root, ties)
+  IN IF ~c.ok \/ root = 0 \/ ~Deviates(inputs, code, root) THEN c
+     ELSE LET a == AsIs(inputs, code, root)
+          IN c @@ [dev |-> <<"broadcast_grad_mean">>,
+                   asis |-> [i \in DOMAIN c.grads |-> [node |-> c.grads[i].node, dims |-> c.grads[i].dims,
+                                                       data |-> EncSeq(a[c.grads[i].node].g)]]]
 
 Mine(p) == p % NParts = Part
 
